@@ -1754,6 +1754,41 @@ func traceVerbatim(root ssa.Value, allow func(*ssa.Call) (ssa.Value, bool)) (bad
 // than one received from the channel.
 func parkedKinds(kinds map[string]int64, st *ssa.Store) (map[string]int64, bool) {
 	fr, isAl := st.Val.(*ssa.Alloc)
+	if !isAl && core.NamedOf(st.Val.Type()) == "frame" {
+		// the slot holds a frame VALUE: what is stored is the received frame itself
+		if ld, isLd := st.Val.(*ssa.UnOp); isLd && ld.Op == token.MUL {
+			if al, ok := ld.X.(*ssa.Alloc); ok && len(core.StoresTo(al)) == 0 {
+				return nil, false // a composite literal built in place
+			}
+		}
+		if !isReceivedFrame(st.Val, 0) {
+			return nil, false
+		}
+		possible := map[string]int64{}
+		for name, k := range kinds {
+			possible[name] = k
+		}
+		for _, ef := range core.DominatingFacts(st) {
+			fc := ef.Fact
+			k, isC := core.ConstInt(fc.Y)
+			kc, isCall := fc.X.(*ssa.Call)
+			if !isC || !isCall || core.InfoOf(&kc.Call).Name != "kind" || len(kc.Call.Args) == 0 {
+				continue
+			}
+			if !(kc.Call.Args[0] == st.Val || core.SameVal(kc.Call.Args[0], st.Val) || sameOrigins(kc.Call.Args[0], st.Val)) {
+				continue
+			}
+			for name, kk := range possible {
+				if fc.Op == token.NEQ && kk == k {
+					delete(possible, name)
+				}
+				if fc.Op == token.EQL && kk != k {
+					delete(possible, name)
+				}
+			}
+		}
+		return possible, true
+	}
 	if !isAl || core.NamedOf(fr.Type()) != "frame" {
 		return nil, false
 	}
